@@ -17,7 +17,7 @@ CONFIG = {
                "two un-aliased imports that imply the same short name (the later statement owns it, the named type exists in both packages): "
                "those are compiled 6 more times in process and in 20 fresh processes. In 2/3 of the bundles every inline enum field with >= 2 options gets (chance 1/2) a rules.in / rules.notIn "
                "list naming >= 2 distinct options and repeating one of them, bare and / or with the enum prefix (both spellings are accepted; counter det.gen.enum-in-repeat): a rule list "
-               "rebuilt from a Go map changes order between compiles. Printer sub-oracle: per package one descriptor without "
+               "rebuilt from a Go map changes order between compiles. Half of the bundles carry validation rules on scalar fields ((buf.validate.field) options in descriptor and text). Printer sub-oracle: per package one descriptor without "
                "source info whose messages carry every message-level option known to the process (among them options of different files with "
                "the same declaration index and the same short name) is printed 7 times in process and once per fresh process; all texts are "
                "equal. Non-trivial = bundle in which at least one package compiled; distinct by skeleton.", gomemlimit="3GiB"),
